@@ -170,7 +170,15 @@ v('C06', 'fire', SM_, 'velocity_n = trajectory[VEL_COLS] + error', 'velocity_n =
 v('C06', 'silent', SM_, 'velocity_n = trajectory[VEL_COLS] + error', 'velocity_n = trajectory[VEL_COLS] - error', 'sign of a zero-mean random error: not observable')
 v('C06', 'silent', SM_, 'velocity_n = trajectory[VEL_COLS] + error', 'velocity_n = error + trajectory[VEL_COLS]')
 v('C03', 'fire', SM_, '            lat = lat_new', '            lon = lat_new', 'survey: latitude iterate never handed on')
+v('C03', 'fire', SM_, '    MAX_ITER = 3', '    MAX_ITER = 2', 'seeded C03 round 5: two passes do not reach the demanded accuracy on long legs')
+v('C03', 'silent', SM_, '    MAX_ITER = 3', '    MAX_ITER = 5')
 IS = 'inertial_sensor.py'
+_CI = '        if isinstance(increments, pd.DataFrame):\n            dt = np.asarray(dt).reshape(-1, 1)'
+v('C14 C12', 'fire', IS, _CI, '        if np.abs(self.bias).max() < 1e-6:\n            return increments\n' + _CI, 'shortcut review: estimates below a threshold are not applied')
+v('C14', 'silent', IS, _CI, '        if not np.any(self.bias) and np.array_equal(self.transform, np.identity(3)):\n            return increments\n' + _CI, 'exact fast path: the correction is the identity')
+UT = 'util.py'
+v('C18', 'silent', UT, '    result = angle % 360', '    if np.all(np.abs(angle) < 180):\n        return angle\n    result = angle % 360', 'shortcut review: already reduced angles returned as they are')
+v('C18', 'fire', UT, '    result = angle % 360', '    if np.all(np.abs(angle) <= 180):\n        return angle\n    result = angle % 360', 'shortcut review: -180 is returned instead of 180')
 v('C14 C12', 'fire', IS, 'P[n_states, n_states] = bias_sd[axis] ** 2', 'P[n_states, n_states] = bias_sd[axis] ** 3', 'survey: initial covariance is not the squared sd')
 v('C14', 'fire', IS, 'G[n_states, n_noises] = 1', 'G[n_states, n_noises] = 2', 'survey: noise input gain')
 v('C14', 'fire', IS, 'F = np.zeros((self.MAX_STATES, self.MAX_STATES))', 'F = np.ones((self.MAX_STATES, self.MAX_STATES))', 'survey: dynamics matrix not zero')
